@@ -1093,6 +1093,9 @@ func (e *Env) evalCall(t *ast.CallExpr) Val {
 			return v
 		}
 	}
+	if v, ok := e.pureFuncCall(name, t.Args); ok {
+		return v
+	}
 	e.errf("unknown function %q in contract", name)
 	return intVal("0")
 }
@@ -1368,4 +1371,73 @@ func (vc *VC) registerAllFamilies() {
 type frameReq struct {
 	cond   string
 	except map[string]bool
+}
+
+
+// pureFuncCall: a package-level function of the contract's package that has a `pure` contract, used in a
+// specification: its result is the same uninterpreted function of (heap, arguments) that call sites use,
+// constrained by the function's own postconditions.
+func (e *Env) pureFuncCall(name string, argExprs []ast.Expr) (Val, bool) {
+	vc := e.vc
+	if e.pkg == nil || name == "" {
+		return Val{}, false
+	}
+	key := e.pkg.Name() + "." + name
+	ct := vc.S.Contracts[key]
+	fn := vc.P.Funcs[key]
+	if ct == nil || fn == nil {
+		return Val{}, false
+	}
+	if !ct.Pure {
+		e.errf("function %s used in a contract is not declared pure", key)
+		return Val{}, true
+	}
+	var all []Val
+	for _, a := range argExprs {
+		all = append(all, e.evalGo(a))
+	}
+	for _, a := range all {
+		for _, l := range a.L {
+			if strings.Contains(l, "bv.") {
+				e.errf("pure call %s on a bound variable is not supported", key)
+				return Val{}, true
+			}
+		}
+	}
+	sig := fn.Signature
+	rt := resultType(sig)
+	res := vc.pureResult(key, e.heap, all, rt)
+	mk := key + "|" + joinSp(res.L)
+	if pureCallMemo[vc] == nil {
+		pureCallMemo[vc] = map[string]Val{}
+	}
+	if v, ok := pureCallMemo[vc][mk]; ok {
+		return v, true
+	}
+	vc.assert(vc.typeFacts(res))
+	ce := &Env{vc: vc, vars: map[string]Val{}, heap: e.heap, old: e.heap, now: e.now, pkg: e.pkg, what: "pure call of " + key + " in " + e.what, reach: e.reach}
+	names := paramNames(fn)
+	if len(ct.Params) > 0 {
+		names = ct.Params
+	}
+	for i, n := range names {
+		if i < len(all) {
+			ce.vars[n] = all[i]
+		}
+	}
+	var reqs, enss []string
+	for _, r := range ct.Requires {
+		reqs = append(reqs, ce.evalGoal(r.E).T())
+	}
+	bindResults(vc, ce, sig, ct.Results, res)
+	for _, en := range ct.Ensures {
+		enss = append(enss, ce.evalAssume(en.E).T())
+	}
+	vc.assert(imp(and(reqs...), and(enss...)))
+	out := res
+	if sig.Results().Len() == 1 {
+		out.Typ = sig.Results().At(0).Type()
+	}
+	pureCallMemo[vc][mk] = out
+	return out, true
 }
